@@ -201,6 +201,12 @@ func (s Suite) String() string {
 // Protect builds the protected datagram from a descriptor with explicit IV and
 // padding (pad: the pad octets, without the pad-length octet).
 func Protect(s Suite, ske, ska []byte, m Msg, l Lib, iv, pad []byte) ([]byte, error) {
+	return ProtectOuter(s, ske, ska, m, l, iv, pad, nil, Lib{})
+}
+
+// ProtectOuter additionally places cleartext payloads (e.g. unsupported ones) in the outer chain in
+// front of the SK payload; the checksum covers them like everything else before it.
+func ProtectOuter(s Suite, ske, ska []byte, m Msg, l Lib, iv, pad []byte, outer []Payload, ol Lib) ([]byte, error) {
 	first, inner, err := EncodeChain(m.P, l)
 	if err != nil {
 		return nil, err
@@ -214,7 +220,19 @@ func Protect(s Suite, ske, ska []byte, m Msg, l Lib, iv, pad []byte) ([]byte, er
 	if skLen > 0xffff {
 		return nil, ErrTooBig
 	}
-	out := EncodeHdr(m.H, PSK, 28+skLen)
+	var pre []byte
+	firstOuter := uint8(PSK)
+	if len(outer) > 0 {
+		// chain the outer payloads and make the last one name SK
+		fo, ob, err := EncodeChain(append(append([]Payload(nil), outer...), Payload{T: PSK}), ol)
+		if err != nil {
+			return nil, err
+		}
+		firstOuter = fo
+		pre = ob[:len(ob)-4] // drop the placeholder SK generic header
+	}
+	out := EncodeHdr(m.H, firstOuter, 28+len(pre)+skLen)
+	out = append(out, pre...)
 	out = append(out, first, 0)
 	out = append(out, be16(skLen)...)
 	out = append(out, iv...)
